@@ -208,6 +208,7 @@ func RunSpec(t *testing.T, spec Spec) (res Result) {
 // RunSim runs root under the scheduler and folds crashes / deadlocks / budget
 // exhaustion of the simulated system into the result.
 func (e *Env) RunSim(cfg sim.Config, root func()) sim.Outcome {
+	resetProbes()
 	out := sim.Run(cfg, root)
 	// accumulate (a property may run several simulated process lives)
 	o := &e.res.Outcome
